@@ -18,7 +18,7 @@ MANIFEST = {
     'technique': 'symbolic execution of the real Python source with z3 on a re-scaled instance; hash values as unconstrained 32-bit integers',
 }
 
-BOUNDS = {'quick': [(2, 4, 3), (2, 5, 3)], 'thorough': [(2, 5, 4), (2, 6, 3), (2, 6, 4), (3, 6, 5)]}
+BOUNDS = {'quick': [(2, 4, 3), (2, 5, 3)], 'thorough': [(2, 5, 4), (2, 6, 3), (2, 6, 4)]}
 
 INFO = {
     'engine': 'symx + z3',
@@ -27,7 +27,7 @@ INFO = {
     'bounds': {t: [f'p={p} (capacity {(1 << p) // 2}), {s} insertions over {k} items' for p, s, k in v] for t, v in BOUNDS.items()},
     'outside': ['"within 2% up to 2^21 distinct values" (statistical)', 'the real constants p=19, capacity 2^18 (recorded and asserted, then re-scaled)', '32-bit hash collisions between distinct items are allowed (hash values unconstrained)'],
     'assumptions': ['xxhash.xxh32(seed).update(bytes).intdigest() is a function of the bytes', 'numpy zeros/where/log/divide/ceil on the register array follow numpy semantics'],
-    'job_timeout': {'quick': 240, 'thorough': 2400},
+    'job_timeout': {'quick': 240, 'thorough': 1500},
 }
 
 HASH = {}
